@@ -284,7 +284,7 @@ def _unpred_in_it_block(iset, instr):
         cps_setend = bits(instr, 15, 6) == 0b1011011001
         return lor(cbz, it, cps_setend)
     if iset == 'thumb32':
-        return land(bits(instr, 31, 20) == 0xF3B, bits(instr, 15, 8) == 0x8F, bits(instr, 7, 5) == 0)
+        return land(bits(instr, 31, 20) == 0xF3B, bits(instr, 15, 14) == 0b10, bit(instr, 12) == 0, bits(instr, 7, 5) == 0)
     return False
 
 
